@@ -151,7 +151,7 @@ PROPS["C10"] = dict(
     level_note="Trusted: Coq kernel + vm_compute; session identifiers are numbered by order of creation (the 32 random bytes themselves are not modelled: freshness is relative to the RNG); "
                "fresh keys on resumption follow from fresh randoms under the cached master secret (C04 checks the derivation).",
     code_names={1: "ends-disagree-on-resumption-or-success", 2: "resumed-without-an-offered-session", 3: "failed-session-offered-again", 4: "session-identifier-reused",
-                5: "no-transparent-fallback", 6: "session-from-a-failed-handshake-offered", 7: "resumed-on-a-suite-no-longer-enabled-by-both"},
+                5: "no-transparent-fallback", 6: "session-from-a-failed-handshake-offered", 7: "resumed-on-a-suite-no-longer-enabled-by-both", 8: "session-of-another-server-offered"},
     assumptions=["Config.Rand yields fresh identifiers"],
     trusted=["verif hook VerifNewSessionWithCerts (forged cache entries)", "smx509.Verify as oracle"],
 )
